@@ -16,6 +16,7 @@ import (
 	"math/big"
 	"net"
 	"reflect"
+	"strings"
 	"time"
 
 	"github.com/tjfoc/gmsm/sm2"
@@ -499,20 +500,116 @@ func csrUnit(si int) harness.Unit {
 		type cc struct {
 			name string
 			t    gx509.CertificateRequest
+			mk   func() gx509.CertificateRequest // a fresh template (CreateCertificateRequest may write into Attributes)
+			// what must be found in the parsed request beyond subject, SANs and key
+			wantExt  []pkix.Extension
+			wantAttr []pkix.AttributeTypeAndValueSET
 		}
-		cases := []cc{
-			{"base", gx509.CertificateRequest{Subject: pkix.Name{CommonName: "req", Organization: []string{"O"}}}},
-			{"sans", gx509.CertificateRequest{Subject: pkix.Name{CommonName: "req"}, DNSNames: []string{"a.example", "b.example"}, EmailAddresses: []string{"u@example.test"}, IPAddresses: []net.IP{net.ParseIP("10.0.0.9").To4(), net.ParseIP("2001:db8::9")}}},
-			{"extra extension", gx509.CertificateRequest{Subject: pkix.Name{CommonName: "req"}, ExtraExtensions: []pkix.Extension{{Id: asn1.ObjectIdentifier{1, 2, 3, 9}, Value: []byte{5, 0}}}}},
-			{"multi-valued subject", gx509.CertificateRequest{Subject: pkix.Name{CommonName: "req", Organization: []string{"O1", "O2"}, Country: []string{"CN"}}}},
-			{"empty subject", gx509.CertificateRequest{}},
+		oidExtReq := asn1.ObjectIdentifier{1, 2, 840, 113549, 1, 9, 14}
+		oidChallenge := asn1.ObjectIdentifier{1, 2, 840, 113549, 1, 9, 7}
+		extX := pkix.Extension{Id: asn1.ObjectIdentifier{1, 2, 3, 9}, Value: []byte{5, 0}}
+		extY := pkix.Extension{Id: asn1.ObjectIdentifier{1, 2, 3, 10}, Value: []byte{4, 2, 7, 7}}
+		extXother := pkix.Extension{Id: asn1.ObjectIdentifier{1, 2, 3, 9}, Value: []byte{4, 1, 1}}
+		type part struct {
+			name string
+			f    func(t *gx509.CertificateRequest, w *cc)
+		}
+		subjects := []part{
+			{"CN+O", func(t *gx509.CertificateRequest, w *cc) {
+				t.Subject = pkix.Name{CommonName: "req", Organization: []string{"O"}}
+			}},
+			{"multi-valued subject", func(t *gx509.CertificateRequest, w *cc) {
+				t.Subject = pkix.Name{CommonName: "req", Organization: []string{"O1", "O2"}, Country: []string{"CN"}}
+			}},
+			{"empty subject", func(t *gx509.CertificateRequest, w *cc) {}},
+		}
+		sans := []part{
+			{"no SANs", func(t *gx509.CertificateRequest, w *cc) {}},
+			{"DNS names", func(t *gx509.CertificateRequest, w *cc) { t.DNSNames = []string{"a.example", "b.example"} }},
+			{"DNS+email+IP", func(t *gx509.CertificateRequest, w *cc) {
+				t.DNSNames, t.EmailAddresses = []string{"a.example", "b.example"}, []string{"u@example.test"}
+				t.IPAddresses = []net.IP{net.ParseIP("10.0.0.9").To4(), net.ParseIP("2001:db8::9")}
+			}},
+		}
+		extras := []part{
+			{"no extra extension", func(t *gx509.CertificateRequest, w *cc) {}},
+			{"one extra extension", func(t *gx509.CertificateRequest, w *cc) {
+				t.ExtraExtensions = []pkix.Extension{extX}
+				w.wantExt = append(w.wantExt, extX)
+			}},
+			{"two extra extensions", func(t *gx509.CertificateRequest, w *cc) {
+				t.ExtraExtensions = []pkix.Extension{extX, extY}
+				w.wantExt = append(w.wantExt, extX, extY)
+			}},
+		}
+		reqAttr := func(es ...pkix.Extension) pkix.AttributeTypeAndValueSET {
+			var atvs []pkix.AttributeTypeAndValue
+			for _, e := range es {
+				atvs = append(atvs, pkix.AttributeTypeAndValue{Type: e.Id, Value: e.Value})
+			}
+			return pkix.AttributeTypeAndValueSET{Type: oidExtReq, Value: [][]pkix.AttributeTypeAndValue{atvs}}
+		}
+		other := func() pkix.AttributeTypeAndValueSET {
+			return pkix.AttributeTypeAndValueSET{Type: oidChallenge, Value: [][]pkix.AttributeTypeAndValue{{{Type: asn1.ObjectIdentifier{2, 5, 4, 3}, Value: "secret"}}}}
+		}
+		attrs := []part{
+			{"no attributes", func(t *gx509.CertificateRequest, w *cc) {}},
+			{"another attribute", func(t *gx509.CertificateRequest, w *cc) {
+				t.Attributes = []pkix.AttributeTypeAndValueSET{other()}
+				w.wantAttr = append(w.wantAttr, other())
+			}},
+			{"extensionRequest attribute with its own extension", func(t *gx509.CertificateRequest, w *cc) {
+				t.Attributes = []pkix.AttributeTypeAndValueSET{reqAttr(extY)}
+				w.wantExt = append(w.wantExt, extY)
+			}},
+			{"another attribute, then an extensionRequest attribute", func(t *gx509.CertificateRequest, w *cc) {
+				t.Attributes = []pkix.AttributeTypeAndValueSET{other(), reqAttr(extY)}
+				w.wantExt = append(w.wantExt, extY)
+				w.wantAttr = append(w.wantAttr, other())
+			}},
+			{"extensionRequest attribute overriding the first extra extension", func(t *gx509.CertificateRequest, w *cc) {
+				t.Attributes = []pkix.AttributeTypeAndValueSET{reqAttr(extXother)}
+				for i := range w.wantExt {
+					if w.wantExt[i].Id.Equal(extXother.Id) {
+						w.wantExt[i] = extXother
+					}
+				}
+				if len(t.ExtraExtensions) == 0 {
+					w.wantExt = append(w.wantExt, extXother)
+				}
+			}},
+			{"extensionRequest attribute without values", func(t *gx509.CertificateRequest, w *cc) {
+				t.Attributes = []pkix.AttributeTypeAndValueSET{{Type: oidExtReq}}
+			}},
+		}
+		var cases []cc
+		for _, sp := range subjects {
+			for _, np := range sans {
+				for _, ep := range extras {
+					for _, ap := range attrs {
+						sp, np, ep, ap := sp, np, ep, ap
+						w := cc{name: sp.name + "; " + np.name + "; " + ep.name + "; " + ap.name}
+						build := func(w *cc) gx509.CertificateRequest {
+							var t gx509.CertificateRequest
+							sp.f(&t, w)
+							np.f(&t, w)
+							ep.f(&t, w)
+							ap.f(&t, w)
+							return t
+						}
+						w.t = build(&w)
+						w.mk = func() gx509.CertificateRequest { var scratch cc; return build(&scratch) }
+						cases = append(cases, w)
+					}
+				}
+			}
 		}
 		for _, tc := range cases {
 			for _, a := range algs {
-				if tc.name != "base" && a.alg != 0 && a.family != s.family {
+				if !strings.HasPrefix(tc.name, "CN+O; no SANs; no extra extension; no attributes") && a.alg != 0 && a.family != s.family {
 					continue
 				}
-				t := tc.t
+				t := tc.mk()
 				t.SignatureAlgorithm = a.alg
 				tag := fmt.Sprintf("CSR template=%q signer=%s alg=%s", tc.name, s.name, a.name)
 				c.Add("evaluations", 1)
@@ -544,7 +641,7 @@ func csrUnit(si int) harness.Unit {
 				if p.SignatureAlgorithm != expectedAlg(s, a) {
 					diff = append(diff, fmt.Sprintf("SignatureAlgorithm %v want %v", p.SignatureAlgorithm, expectedAlg(s, a)))
 				}
-				for _, e := range t.ExtraExtensions {
+				for _, e := range tc.wantExt {
 					f := false
 					for _, pe := range p.Extensions {
 						if pe.Id.Equal(e.Id) && bytes.Equal(pe.Value, e.Value) {
@@ -552,8 +649,27 @@ func csrUnit(si int) harness.Unit {
 						}
 					}
 					if !f {
-						diff = append(diff, "ExtraExtension")
+						diff = append(diff, fmt.Sprintf("extension %v", e.Id))
 					}
+				}
+				for _, wa := range tc.wantAttr {
+					f := false
+					for _, pa := range p.Attributes {
+						if pa.Type.Equal(wa.Type) && fmt.Sprint(pa.Value) == fmt.Sprint(wa.Value) {
+							f = true
+						}
+					}
+					if !f {
+						diff = append(diff, fmt.Sprintf("attribute %v", wa.Type))
+					}
+				}
+				// the same template object used a second time gives a request with the same contents
+				if der2, err2 := gx509.CreateCertificateRequest(rand.Reader, &t, s.key); err2 != nil {
+					diff = append(diff, fmt.Sprintf("second use of the template fails: %v", err2))
+				} else if p2, err2 := gx509.ParseCertificateRequest(der2); err2 != nil {
+					diff = append(diff, fmt.Sprintf("second use of the template does not parse: %v", err2))
+				} else if !strsEq(p2.DNSNames, p.DNSNames) || !ipEq(p2.IPAddresses, p.IPAddresses) || len(p2.Extensions) != len(p.Extensions) || len(p2.Attributes) != len(p.Attributes) {
+					diff = append(diff, "second use of the template gives other contents")
 				}
 				if !samePublic(p.PublicKey, s.key.Public()) {
 					diff = append(diff, "PublicKey")
